@@ -12,6 +12,7 @@ def variants(rng, name, orig, other):
     v = {"orig": orig, "absent": None}
     v["flip"] = bytes([orig[0] ^ 0x40]) + orig[1:]
     v["prepend"] = b"Z" + orig
+    v["zeroappended"] = orig + b"\0"             # every slice still in place (the zero is the last slice's padding) - only the length is wrong
     if len(orig) > 1:
         v["truncate"] = orig[:-1]
     if other is not None:
@@ -215,7 +216,7 @@ def run(ctx):
             ctx.sample({"format": fmt, "files": {n: list(var[n]) for n in names}, "recovery_files": len(vols), "states": len(states)})
     return ctx.finish(
         "proof",
-        rule="the event alphabet {set file f to: original, absent, first byte flipped, a byte prepended, last byte cut, another protected file's content (PAR2); delete/restore each recovery file} generates a FINITE state space (every file in any variant x every subset of recovery files): for PAR2 (2 files, 2 recovery files; thorough also 3 files) and PAR1 (3 files, 2 volumes) EVERY state is visited and Verify, Repair and Repair with double-check are run from it on implementation and model; the successor of every Repair is looked up in the same table (closure), where its Verify and a further Repair are inspected; non-trivial = some file is not original",
+        rule="the event alphabet {set file f to: original, absent, first byte flipped, a byte prepended, a zero byte appended (every slice stays findable in place), last byte cut, another protected file's content (PAR2); delete/restore each recovery file} generates a FINITE state space (every file in any variant x every subset of recovery files): for PAR2 (2 files, 2 recovery files; thorough also 3 files) and PAR1 (3 files, 2 volumes) EVERY state is visited and Verify, Repair and Repair with double-check are run from it on implementation and model; the successor of every Repair is looked up in the same table (closure), where its Verify and a further Repair are inspected; non-trivial = some file is not original",
         exhaustive=True,
         extra={"input_distribution": dist, "states": dist["states"], "transitions": dist["transitions"],
                "predicate": "Verify changes nothing; every Repair leaves each file as it was or original; a successful Repair leaves all files original, the successor state verifies clean and a further Repair rewrites nothing; once all recovery files are back a Repair restores everything the model says is restorable",
